@@ -607,6 +607,12 @@ pub struct UniqueId {
     object_cfg: Cfg,
 }
 
+impl UniqueId {
+    pub(crate) fn cfg(&self) -> &Cfg {
+        &self.object_cfg
+    }
+}
+
 impl Display for UniqueId {
     fn fmt(&self, f: &mut std::fmt::Formatter<'_>) -> std::fmt::Result {
         match self.object_cfg.inner() {
